@@ -268,6 +268,9 @@ def run_cli(argv: list[str]) -> dict:
             code = 0
         except SystemExit as e:
             code = e.code if e.code is not None else 0
+            if not isinstance(code, int):
+                err.write(str(code) + "\n")      # what the interpreter does with sys.exit("text"): print it, status 1
+                code = 1
         except BaseException as e:  # noqa: BLE001
             exc = e
             code = f"raised {type(e).__name__}: {e}"
